@@ -26,7 +26,7 @@ def run(ctx):
     rng = random.Random(ctx.seed)
     ctx.cov["rule"] = ("cases = (tuple of sorted sequences incl. empty ones, length L, configuration): configuration = stable x {exact, sampling} x threads "
                        "in 1..32 (also more threads than elements) x oversampling {1,2,10} x 4 merge algorithms x entry point (base, front end forced parallel / "
-                       "sequential) x shim schedule, 12 per tuple chosen by the seed; tuples: complete products over 2 keys (length <= 3, k <= 3, every L) and "
+                       "sequential, the *_sentinels front ends forced parallel / sequential) x shim schedule, 16 per tuple chosen by the seed; tuples: complete products over 2 keys (length <= 3, k <= 3, every L) and "
                        "seeded larger ones; non-trivial = total size >= 2; distinct by content")
     tlc_mc(ctx, SD, "MergeA", "mc_merge_run.cfg", workers=8, timeout=3000,
            cfg_text="CONSTANTS MaxK = 3\n MaxLen = %d\n Keys = {1,2}\nSPECIFICATION Spec\nINVARIANTS OutSorted SmallestTaken AdvanceExact StableOrder\nCHECK_DEADLOCK FALSE\n" % (2 if quick else 3))
